@@ -335,6 +335,8 @@ func c01Run(t *testing.T, ops []c01Op) ([]c01Put, *c01Keys, []string, *Sys) {
 	return out, ks, canaries, s
 }
 
+var c01Sampled bool
+
 func TestVerifC01Store(t *testing.T) {
 	res := vout.New("C01", "store")
 	defer func() {
@@ -378,7 +380,8 @@ func TestVerifC01Store(t *testing.T) {
 				for c := range classes {
 					res.Distinct("nontrivial", strings.Join(names, "+")+"|"+c)
 				}
-				if count%17 == 0 {
+				if count%17 == 0 || !c01Sampled {
+					c01Sampled = true
 					res.Sample(map[string]interface{}{"workload": names, "physical_puts_checked": len(puts), "canaries": len(canaries), "key_classes": len(classes)})
 				}
 				s.Close()
